@@ -243,13 +243,15 @@ def _closure(u: frozenset) -> frozenset:
 
 
 def r_forget_only_gathered(ctx: Ctx, rule: str):
-    """Dataflow over gather_and_close: U = the task registries that may hold a task that was an argument of no gather yet.
-    entry: all three; `await gather(F...)`: U := closure(U - F); any other suspension: U := closure(U) (a task that is running
-    may end - move to the cancelled/ended registry - while the method is suspended); a bulk forget of registry R needs R not in U."""
+    """Dataflow over gather_and_close: U = the task registries that may hold a task no gather has waited for to the end.
+    entry: all three; `await gather(F...)` completing normally: U := closure(U - F); a gather left by an exception, and any other
+    suspension: U := closure(U) (a task that is running may end - move to the cancelled/ended registry - while the method is
+    suspended); a bulk forget of registry R needs R not in U."""
     rep = ctx.rep
-    rep.rule(rule, "FORGET-ONLY-GATHERED(gather_and_close): may-analysis of the registries that can still hold a task that was an argument of "
-                   "no gather (a running task migrates to cancelled/ended during any suspension); a registry is cleared only when it cannot - "
-                   "otherwise that task's exception is never reported")
+    rep.rule(rule, "FORGET-ONLY-GATHERED(gather_and_close): may-analysis of the registries that can still hold a task no gather has waited for "
+                   "to the end (a running task migrates to cancelled/ended during any suspension; a gather left by an exception has waited for "
+                   "nothing); a registry is cleared only when it cannot - otherwise that task's exception is never reported, or the task is "
+                   "forgotten while it still runs and its _task_ending cannot find it")
     for f in ctx.pool_funcs("gather_and_close"):
         g = ctx.an.cfg(f)
         gset: Dict[int, Set[str]] = {}
@@ -272,13 +274,14 @@ def r_forget_only_gathered(ctx: Ctx, rule: str):
         while work:
             n = work.pop()
             cur = state[id(n)]
-            if id(n) in gset:
-                out = _closure(frozenset(cur - gset[id(n)]))
-            elif ctx.effective(n):
-                out = _closure(cur)
-            else:
-                out = cur
             for s, _lab in n.succ:
+                if id(n) in gset and _lab[0] in NORMAL_KINDS:
+                    out = _closure(frozenset(cur - gset[id(n)]))
+                elif id(n) in gset or ctx.effective(n):
+                    # (a gather that is left by an exception or a cancellation has waited for nothing: its members may still run)
+                    out = _closure(cur)
+                else:
+                    out = cur
                 old = state.get(id(s))
                 new = out if old is None else (old | out)
                 if new != old:
@@ -294,8 +297,9 @@ def r_forget_only_gathered(ctx: Ctx, rule: str):
                     if e.kind in ("clear", "assign") and field_of(e.path) in TASK_FIELDS and field_of(e.path) in state.get(id(c), frozenset()):
                         bad = (c, field_of(e.path))
             rep.ob(rule, "a registry is forgotten only when each task it can hold was an argument of a gather", bad is None, node=site,
-                   detail="" if bad is None else f"{bad[1]} may hold a task that no gather received: it was running when the earlier wait took its members and moved here "
-                                                 "while gather_and_close was suspended; it is forgotten un-awaited and its exception is never raised or collected")
+                   detail="" if bad is None else f"{bad[1]} may hold a task that no completed gather covers (it moved here while gather_and_close was suspended, or the "
+                                                 "gather over it was left by an exception while it still runs); it is forgotten un-awaited: its exception is never "
+                                                 "raised or collected, and when it ends _task_ending finds it in no registry")
 
 
 def r_return_exceptions(ctx: Ctx, rule: str, funcs=("flush", "gather_and_close")):
